@@ -274,3 +274,32 @@ func main() {
 		os.Stdout.Write(js)
 	}
 }
+
+// longBoundaryInputs returns strings in which an interesting unit starts 0-3 bytes before each
+// offset 2^k (k = 4..13) and 2^k +- 1, after ASCII padding, followed by a short tail.
+func longBoundaryInputs() []string {
+	units := []string{"\u00e9", "\u20ac", "\U0001f600", "\ufdd0", "\U0001fffe", "\x00", "\u0085", "<", "&amp;", "\xff", "\xed\xa0\x80", "\xf0\x9f"}
+	var out []string
+	for k := 4; k <= 13; k++ {
+		for _, e := range []int{-1, 0, 1} {
+			off := (1 << uint(k)) + e
+			for d := 0; d <= 3; d++ {
+				if off-d < 0 {
+					continue
+				}
+				u := units[(k*7+d*3+e+1)%len(units)]
+				u2 := units[(k*5+d+e+4)%len(units)]
+				out = append(out, strings.Repeat("a", off-d)+u+"b<"+u2)
+				if k >= 7 && k <= 10 && e == 0 {
+					for _, w := range units {
+						out = append(out, strings.Repeat("a", off-d)+w+"z")
+					}
+				}
+			}
+		}
+	}
+	for _, u := range units {
+		out = append(out, strings.Repeat(u, 300), "x"+strings.Repeat(u, 129))
+	}
+	return out
+}
